@@ -62,7 +62,7 @@ class Sh:
 
 
 def gen_val(ty):
-    return {"u8": "s.u8()", "i8": "s.i8()", "bool": "s.bool()", "u16": "s.u16()", "F": "F(s.u8())", "Po": "Po(s.u8())", "&'static u8": "&REFS[s.below(2) as usize]",
+    return {"u8": "s.u8()", "i8": "s.i8()", "bool": "s.bool()", "u16": "s.u16()", "F": "F(s.u8())", "Po": "Po(s.u8())", "Wo": "Wo(s.u8())", "&'static u8": "&REFS[s.below(2) as usize]",
             "[u8; 2]": "[s.u8(), s.u8()]", "core::marker::PhantomData<u16>": "core::marker::PhantomData", "(u8, i8)": "(s.u8(), s.i8())",
             "(F, F)": "(F(s.u8()), F(s.u8()))", "f32": "(if s.bool() { f32::NAN } else { s.u8() as f32 })", "A::Out": "PAll(s.u8())"}.get(ty) or \
         {"A": "Gen::gen(s)", "&'a u8": "&REFS[s.below(2) as usize]", "&'a A": "&REFS[s.below(2) as usize]", "[u8; N]": "[s.u8(), s.u8()]", "core::marker::PhantomData<A>": "core::marker::PhantomData"}[ty]
@@ -184,6 +184,8 @@ def shapes(tier, rnd):
     out.append(S("named-tuplefield", "named", [("a", "(u8, i8)"), ("b", "bool")]))
     out.append(S("partial-only", "named", [("a", "Po"), ("b", "u8")], traits=["Clone", "PartialEq", "PartialOrd"]))
     out.append(S("float-field", "named", [("a", "f32"), ("b", "u8")], traits=["Clone", "PartialEq", "PartialOrd", "Default"]))
+    # (a field whose PartialOrd is not `Some(Ord::cmp)` with Ord derived alongside is C01's shape s_wo: against the std-derived twin Kani reported a difference
+    #  that does not reproduce natively - the twin's own derive is not this check's subject - so the comparison is made against the documented rule there)
     # an incomparable later field must not override the order decided by an earlier one
     out.append(S("float-last", "named", [("a", "u8"), ("b", "f32"), ("c", "Po")], traits=["Clone", "PartialEq", "PartialOrd"]))
     out.append(S("assoc-type-shorthand", "named", [("a", "A::Out"), ("b", "u8")], generics_decl="<A: HasOut>", generics_use="<PAll>"))
